@@ -200,6 +200,9 @@ pub struct EpCfg {
     pub stimuli: Arc<Vec<(String, Vec<u8>)>>,
     /// undetermined-version objects: encode the peer's CONNECT menu with this one version
     pub force_connect_ver: Option<Ver>,
+    /// v5.0: every PUBLISH of the application carries a User Property whose value has this many bytes (0 =
+    /// none): property blocks around the 127 / 128 boundary in the connection-level checks
+    pub pub_pad: usize,
 }
 
 impl EpCfg {
@@ -224,6 +227,7 @@ impl EpCfg {
             max_partials: 1,
             stimuli: Arc::new(vec![]),
             force_connect_ver: None,
+            pub_pad: 0,
         }
     }
     pub fn on(&self, g: &str) -> bool {
@@ -601,6 +605,9 @@ impl<P: Pid> Ep<P> {
                 vec![]
             }
         };
+        if self.cfg.pub_pad > 0 && ver == Ver::V5 {
+            props.push(Prop { id: 0x26, val: PVal::Pair(b"k".to_vec(), vec![b'v'; self.cfg.pub_pad]) });
+        }
         AP::Publish { ver, dup, qos: q, retain: false, topic, pid: id, props, payload: PAYLOAD.to_vec() }
     }
 
@@ -1131,6 +1138,11 @@ impl<P: Pid> World for Ep<P> {
                         v.push(Act::PAck { kind: k, id, err: true, defer: false, nomatch: false });
                         // success-class reason code other than 0x00 ("No matching subscribers")
                         v.push(Act::PAck { kind: k, id, err: false, defer: false, nomatch: true });
+                    }
+                    // PUBREL / PUBCOMP with reason code 0x92 (Packet Identifier not found): they still
+                    // complete / release the exchange they name
+                    if al.peer_ack_err && self.v5() && matches!(k, AckKind::Pubrel | AckKind::Pubcomp) {
+                        v.push(Act::PAck { kind: k, id, err: true, defer: false, nomatch: false });
                     }
                 }
             }
